@@ -309,7 +309,8 @@ def parse_result(h, rc, out_json, logf):
         res['playback'] = extract_playback(logtxt)
         return res
     if unwind_fail:
-        res['reason'] = 'unwinding bound too small: ' + '; '.join(res.get('unwind_failures', [])[:3])
+        fns = sorted(set(re.sub(r'^.* in ', '', u)[:110] for u in res.get('unwind_failures', [])))
+        res['reason'] = 'unwinding bound too small in: ' + ' | '.join(fns[:12])
         res['status'] = 'unwind'
         return res
     if status == 'Success' and undetermined == 0:
